@@ -35,6 +35,10 @@ pub struct Job {
     /// forced opcode choices: (0-based body step, opcode byte)
     #[serde(default)]
     pub force: Vec<(usize, u8)>,
+    /// leak measurement: construct, generate and drop on a freshly spawned thread that is joined
+    /// before the live heap is read again
+    #[serde(default)]
+    pub thread: bool,
 }
 
 fn yes() -> bool {
